@@ -10,7 +10,7 @@ import (
 // HTTP the server rejects a second request on single-request methods.
 
 func init() {
-	register(&Property{ID: "C08", Scenarios: c08Scenarios, Oracle: c08Oracle})
+	register(&Property{ID: "C08", Timers: true, Scenarios: c08Scenarios, Oracle: c08Oracle})
 }
 
 func c08Scenarios(tier string) []*Scenario {
